@@ -178,9 +178,14 @@ Fixpoint build_loop (ops : oplist) (prec : Z) (gen : Z) (rs : list brow) (nv : o
 
 Definition build_table (ops : oplist) : option built := build_loop ops 1 1 [] None.
 
+(* ply token names (b_name) are internal to the lexer/parser pair and decide nothing about
+   trees: comparisons with the live table ignore them *)
 Definition brow_eqb (a b : brow) : bool :=
   str_eqb (b_sym a) (b_sym b) && (b_up a =? b_up b) && (b_bp a =? b_bp b) &&
-  str_eqb (b_name a) (b_name b) && option_eqb str_eqb (b_alias a) (b_alias b).
+  option_eqb str_eqb (b_alias a) (b_alias b).
+Definition strip_row (r : brow) : brow :=
+  {| b_sym := b_sym r; b_up := b_up r; b_bp := b_bp r; b_name := []; b_alias := b_alias r |}.
+Definition strip_names (B : built) : built := {| rows := map strip_row (rows B); nvop := nvop B |}.
 Definition built_eqb (a b : built) : bool :=
   list_eqb brow_eqb (rows a) (rows b) && option_eqb str_eqb (nvop a) (nvop b).
 
